@@ -340,7 +340,8 @@ type _tupleIteratorRepr struct {
 	nextIndex  int
 
 	// these are only used in repr.go
-	reprEnd int
+	reprEnd   int
+	reprCount int // unused here; keeps the layout convertible to _structIterator
 }
 
 func (w *_tupleIteratorRepr) Next() (index int64, value datamodel.Node, _ error) {
@@ -368,7 +369,8 @@ type _listpairsIteratorRepr struct {
 	nextIndex  int
 
 	// these are only used in repr.go
-	reprEnd int
+	reprEnd   int
+	reprCount int // entries yielded so far: absent fields are skipped, so this is not the field index
 }
 
 func (w *_listpairsIteratorRepr) Next() (index int64, value datamodel.Node, _ error) {
@@ -376,7 +378,7 @@ func (w *_listpairsIteratorRepr) Next() (index int64, value datamodel.Node, _ er
 		if w.Done() {
 			return 0, nil, datamodel.ErrIteratorOverread{}
 		}
-		idx := w.nextIndex
+		idx := w.reprCount
 		key, value, err := (*_structIterator)(w).Next()
 		if err != nil {
 			return 0, nil, err
@@ -388,6 +390,7 @@ func (w *_listpairsIteratorRepr) Next() (index int64, value datamodel.Node, _ er
 		if err != nil {
 			return 0, nil, err
 		}
+		w.reprCount++
 		return int64(idx), field, nil
 	}
 }
